@@ -177,7 +177,7 @@ PROPS = {
              "caught (debug-assertions + overflow-checks on). Malformed stream (buildx) only validates the model's traps.",
         trusted=COMMON_TRUST, assumptions=["stack/heap exhaustion and allocator aborts are not modelled"]),
     "C11": dict(
-        module="FastQr.Props.C11", more_modules=["FastQr.Props.C11Percent", "FastQr.Props.C11Doc"], level="proof", key=key_unit,
+        module="FastQr.Props.C11", more_modules=["FastQr.Props.C11Percent", "FastQr.Props.C11Masks", "FastQr.Props.C11Doc"], level="proof", key=key_unit,
         rule="cases: (a) `uline`: score::line through its hook on ARBITRARY module sequences (random labels / long runs / 1011101 windows "
              "at every offset, next to and across function-pattern modules), spec verdict = (40 per window, N-2 per run) of Spec.Penalty; "
              "(b) `usq`: the 2x2 / dark-ratio / total scorers on arbitrary matrices (real labels + random values, random labels, uniform), "
